@@ -1,1 +1,34 @@
-// scratch
+use crate::fin::*;
+use muxide::verif_hooks::mp4::verif as mp4h;
+#[kani::proof]
+#[kani::unwind(5)]
+#[kani::stub(muxide::invariant_ppt::__assert_invariant_impl, crate::stubs::assert_invariant_stub)]
+#[kani::stub(muxide::muxer::mp4::build_moov_box, muxide::verif_hooks::mp4::verif::moov_recording_stub)]
+pub fn x_fault_only() {
+    no_carrier();
+    let mut sink = RecSink::new();
+    sink.fault_at = 3;
+    sink.fault_fail = kani::any();
+    sink.fault_intr = kani::any();
+    sink.fault_accept = kani::any();
+    let mut w = build_writer::<2, 0>(sink, [0, 3000], [true, false], [], false);
+    let r = w.finalize(&VIDEO, None, false);
+    let s = mp4h::sink(&w);
+    assert!(r.is_err() == s.failed);
+    core::mem::forget((w, r));
+}
+#[kani::proof]
+#[kani::unwind(5)]
+#[kani::stub(muxide::invariant_ppt::__assert_invariant_impl, crate::stubs::assert_invariant_stub)]
+#[kani::stub(muxide::muxer::mp4::build_moov_box, muxide::verif_hooks::mp4::verif::moov_recording_stub)]
+pub fn x_fault_failonly() {
+    no_carrier();
+    let mut sink = RecSink::new();
+    sink.fault_at = 3;
+    sink.fault_fail = kani::any();
+    let mut w = build_writer::<2, 0>(sink, [0, 3000], [true, false], [], false);
+    let r = w.finalize(&VIDEO, None, false);
+    let s = mp4h::sink(&w);
+    assert!(r.is_err() == s.failed);
+    core::mem::forget((w, r));
+}
